@@ -5,6 +5,7 @@ import (
 	"os"
 	"runtime/debug"
 	"strings"
+	"time"
 
 	"github.com/elastic/go-ucfg/zzsimhook"
 )
@@ -29,7 +30,14 @@ type budgetExceeded struct{ site string }
 // loop iterations). It is a budget of the simulator (bounded liveness), far
 // above the largest legitimate operation the generators can produce; the
 // largest observed value is reported in the evidence.
-const StepBudget = 2000000
+const StepBudget = 300000
+
+// WallBudget is a second, wall-clock trigger for the same verdict: an
+// operation whose loop iterations are each very expensive (a loop that
+// allocates ever larger objects) would need hours to reach StepBudget. A
+// legitimate operation takes well under a millisecond, so the margin is four
+// orders of magnitude; the clock is read once per 256 hook events.
+const WallBudget = 8 * time.Second
 
 // Order policies for map enumeration (the schedule of the single-task engines).
 const (
@@ -60,6 +68,7 @@ type R struct {
 	StateOps   int   // state-changing operations executed
 	Logical    int64 // hook events in the whole run (logical time)
 	opSteps    int64 // hook events in the current operation
+	opStart    time.Time
 	MaxOpSteps int64
 	inOp       bool
 	step       int
@@ -130,6 +139,9 @@ func (r *R) onStep(site string) {
 		if r.opSteps > StepBudget {
 			panic(budgetExceeded{site})
 		}
+		if r.opSteps&255 == 0 && time.Since(r.opStart) > WallBudget {
+			panic(budgetExceeded{site + " (wall-clock trigger)"})
+		}
 	}
 }
 
@@ -195,6 +207,7 @@ type Outcome struct {
 func (r *R) Call(fn func()) (out Outcome) {
 	r.inOp = true
 	r.opSteps = 0
+	r.opStart = time.Now()
 	defer func() {
 		r.inOp = false
 		out.Steps = r.opSteps
